@@ -292,9 +292,11 @@ impl Scenario for C07 {
         let kind = rng.below(3) as u8;
         let nn = rng.range(2, 6) as usize;
         let hi = if tier == Tier::Quick { 8 } else { 11 };
-        let base = rng.range(3, hi) as u8;
+        // max_map_size 1, 2 and 4 are valid (documented as clamped up to 8): 1 run in 8 uses them
+        let lo = if rng.chance(1, 8) { 0 } else { 3 };
+        let base = rng.range(lo, hi) as u8;
         let mixed = rng.chance(1, 3);
-        let lg_sizes: Vec<u8> = (0..nn).map(|_| if mixed { rng.range(3, hi) as u8 } else { base }).collect();
+        let lg_sizes: Vec<u8> = (0..nn).map(|_| if mixed { rng.range(lo, hi) as u8 } else { base }).collect();
         let domain = *rng.pick(&[16u32, 40, 100, 400, 1500]);
         let mut acts = vec![];
         let steps = 5 + rng.usize_below(40);
@@ -303,7 +305,7 @@ impl Scenario for C07 {
                 0..=9 => {
                     // an update burst in one of the stream shapes
                     let n = rng.below(nn as u64) as u8;
-                    let cap = 3 * (1u32 << lg_sizes[n as usize]) / 4;
+                    let cap = 3 * (1u32 << lg_sizes[n as usize].max(3)) / 4;
                     let len = 1 + rng.usize_below(300);
                     match rng.below(6) {
                         0 => {
@@ -371,11 +373,13 @@ impl Scenario for C07 {
         let mut nodes: Vec<Node> = cfg
             .lg_sizes
             .iter()
-            .map(|&lg| {
-                let lg = lg.clamp(3, 12);
+            .map(|&raw| {
+                // the sketch is constructed with the requested size; the model uses the effective one
+                let raw = raw.min(12);
+                let lg = raw.max(3);
                 let mut t = Truth::default();
                 t.sizes.insert(lg);
-                Node { sk: Sk::new(kind, lg), truth: t, lg, gens: vec![], wal: vec![] }
+                Node { sk: Sk::new(kind, raw), truth: t, lg, gens: vec![], wal: vec![] }
             })
             .collect();
         let nn = nodes.len();
